@@ -1,4 +1,5 @@
 (* C14 -- single-entry operations act on exactly (in-root parent, final name). *)
+From PV Require Static StaticProofs.
 From PV Require Import Discipline ProgTac PathProofs DisciplineProofs OpathDisc RootDisc OpsProofs FSModel FSProofs CApi CApiProofs.
 Open Scope N_scope.
 
@@ -83,9 +84,28 @@ Example C14_split_examples :
   path_split [] = Some (Ok (b ".", None)).
 Proof. repeat split; reflexivity. Qed.
 
+(* ... and, executed on the static kernel model over any well-formed tree, the emulated
+   backend hands the *at call a descriptor open on exactly the object the in-root
+   walk of the prefix ends on, together with path_split's last component (C01's
+   refinement composed with the split; premise on check_current as in C01) *)
+Theorem C14_static_parent_object :
+  forall s fz o2 pfuel gh ps df rs t root path dirp name,
+    fz <> 0%nat -> StaticProofs.chk_static_ok s (OpathM.check_current fz o2 pfuel gh) -> wf s df -> StaticProofs.links_ok s ->
+    rs_kernel rs = false ->
+    path_split path = Some (Ok (dirp, Some name)) -> has_nul dirp = false ->
+    Static.tget t root = Some ROOT ->
+    match ewalk s dirp false (has (rs_flags rs) RESOLVE_NO_SYMLINKS) with
+    | WOk o => exists t' fd, Static.run s t (parent_and_name fz o2 pfuel gh ps rs root path) = Static.Done t' (Ok (fd, name))
+                             /\ Static.tget t' fd = Some o
+    | WErr n => exists t', Static.run s t (parent_and_name fz o2 pfuel gh ps rs root path) = Static.Done t' (Err (OsError n))
+    | WBudget => exists t', Static.run s t (parent_and_name fz o2 pfuel gh ps rs root path) = Static.Done t' (Err (OsError ELOOP))
+    end.
+Proof. exact StaticProofs.parent_and_name_static. Qed.
+
 Print Assumptions C14_parent_and_name.
 Print Assumptions C14_split_shape.
 Print Assumptions C14_trailing_slash.
 Print Assumptions C14_final_not_followed.
 Print Assumptions C14_parent_is_in_root_resolution.
 Print Assumptions C14_mknod_mode_decode.
+Print Assumptions C14_static_parent_object.
